@@ -4,12 +4,12 @@ import PqModel.Aad
 
 What is proved here: (1) the AAD construction of `encrypt.go` is injective over the module inventory
 of a file, inside the range of its 2-byte ordinals, and across files; (2) for every write history
-(without `Reset`) and every read/seek history, the reader opens each module with exactly the AAD the
+(`Reset` and `BeginRowGroup`/`Commit` included) and every read/seek history, the reader opens each module with exactly the AAD the
 writer sealed it with; (3) composed with an abstract AEAD satisfying the ideal hypotheses `Ideal`
 (AES-GCM itself is ASSUMED, not modelled): round trip, transplant / tamper / wrong-key failure, and
-"error or the original plaintext" against a storage adversary. Two defects of the unchanged code are
-proved on the mirror with concrete witnesses (`reset_breaks_ordinal_agreement`,
-`aad_collides_beyond_range`).
+"error or the original plaintext" against a storage adversary. `reset_breaks_ordinal_agreement_before_fix`
+keeps the defect of the code before the repair of `writer.reset` as a regression fact on the as-it-was
+mirror; `aad_collides_beyond_range` records what the code does beyond the ordinal range.
 
 -- OPEN: "no plaintext byte of an encrypted column is written outside a sealed module" is not a
 -- theorem here; it is a statement about which buffers reach `encryptModule` and is tied by the L1
@@ -79,13 +79,18 @@ theorem mirror_deviates_from_spec :
 /-! ## Writer / reader ordinal agreement -/
 
 /-- Every module a writer has put in the file, after ANY history of buffered writes, page flushes
-    (from full buffers, `Flush`, `Close`), row-group flushes (empty ones included) — but no
-    `Reset` — was sealed with the AAD arguments of the slot it occupies in the file. -/
-theorem writer_ordinals_agree (cfg : WCfg) (ops : List WOp) (hnr : ∀ o ∈ ops, o.isReset = false) :
+    (from full buffers, `Flush`, `Close`), row-group flushes (empty ones included), commits of row
+    groups made by `BeginRowGroup`, and `Reset`s, was sealed with the AAD arguments of the slot it
+    occupies in the file. -/
+theorem writer_ordinals_agree (cfg : WCfg) (ops : List WOp) :
     ∀ e ∈ wclose cfg (wrun cfg ops), e.used = e.slot.used :=
-  wclose_good (winv_run ops hnr)
+  wclose_good (winv_run ops)
 
-example : ∀ o ∈ [WOp.write, .page 0, .page 1, .flush [0], .flush [], .page 0, .flush [1]], o.isReset = false := by decide
+/-- non-vacuity: a history with Reset and a Commit really seals pages, in row group 0 of the new file -/
+example :
+    let cfg : WCfg := { ncols := 1, dict := fun _ => false, bloom := fun _ => false, plainFooter := false }
+    (⟨.dataPage 0 0 0, ⟨.dataPage, [0, 0, 0]⟩⟩ : Ev) ∈ wclose cfg (wrun cfg [.page 0, .flush [], .reset, .page 0]) ∧
+    (⟨.dataPage 1 0 1, ⟨.dataPage, [1, 0, 1]⟩⟩ : Ev) ∈ wclose cfg (wrun cfg [.page 0, .commit [0] [0, 0]]) := by decide
 
 /-- The writer model is not vacuous: this history really produces sealed pages in two row groups. -/
 example :
@@ -94,13 +99,14 @@ example :
     (⟨.dataPage 0 0 1, ⟨.dataPage, [0, 0, 1]⟩⟩ : Ev) ∈ wclose cfg (wrun cfg [.page 0, .page 1, .flush [0], .flush [], .page 0, .page 1]) ∧
     (wclose cfg (wrun cfg [.page 0, .page 1, .flush [0], .flush [], .page 0, .page 1])).length = 31 := by decide
 
-/-- DEFECT on the unchanged code (mirror witness): after `Writer.Reset` the column writers keep
-    the row-group ordinal of the previous file. A page flushed before `writeRowGroup` corrects the
-    ordinal (every page of `Writer.Close`, every page of a full buffer) is sealed as row group 1
-    and lands in row group 0 of the new file: the file cannot be read back. -/
-theorem reset_breaks_ordinal_agreement :
+/-- REGRESSION FACT on the mirror of the code BEFORE the repair of `writer.reset`: after
+    `Writer.Reset` the column writers kept the row-group ordinal of the previous file. A page
+    flushed before `writeRowGroup` corrects the ordinal (every page of `Writer.Close`, every page of
+    a full buffer) was sealed as row group 1 and landed in row group 0 of the new file: the file
+    could not be read back. -/
+theorem reset_breaks_ordinal_agreement_before_fix :
     let cfg : WCfg := { ncols := 1, dict := fun _ => false, bloom := fun _ => false, plainFooter := false }
-    (⟨.dataPage 0 0 0, ⟨.dataPage, [1, 0, 0]⟩⟩ : Ev) ∈ wclose cfg (wrun cfg [.page 0, .flush [], .reset, .page 0]) := by
+    (⟨.dataPage 0 0 0, ⟨.dataPage, [1, 0, 0]⟩⟩ : Ev) ∈ wclose cfg (wrunBefore cfg [.page 0, .flush [], .reset, .page 0]) := by
   decide
 
 /-- Whatever sequence of page reads, cached-page servings, lazy dictionary reads and seeks (with
@@ -117,23 +123,23 @@ example :
       [.dataPageHeader 2 1 3, .dataPage 2 1 3, .dataPageHeader 2 1 1, .dataPage 2 1 1,
        .dictPageHeader 2 1, .dictPage 2 1, .dataPageHeader 2 1 0, .dataPage 2 1 0] := by decide
 
-/-- `ordinals_agree`: for every write history (no Reset) and every read/seek history, the AAD
+/-- `ordinals_agree`: for every write history and every read/seek history, the AAD
     the reader computes for the module it is about to open equals the AAD the writer sealed the
     module in that slot with. -/
-theorem ordinals_agree (cfg : WCfg) (wops : List WOp) (hnr : ∀ o ∈ wops, o.isReset = false)
+theorem ordinals_agree (cfg : WCfg) (wops : List WOp)
     (c : Chunk) (rops : List ROp) (pfx fu : Bytes)
     (ew : Ev) (hw : ew ∈ wclose cfg (wrun cfg wops)) (er : Ev) (hr : er ∈ (rrun c rops).log)
     (hslot : ew.slot = er.slot) :
     er.used.aad pfx fu = ew.used.aad pfx fu := by
-  rw [writer_ordinals_agree cfg wops hnr ew hw, reader_ordinals_agree c rops er hr, hslot]
+  rw [writer_ordinals_agree cfg wops ew hw, reader_ordinals_agree c rops er hr, hslot]
 
 /-- The modules read outside `FilePages` (footer, column metadata, column/offset index, bloom
     filter) are opened with `(rowGroup.Ordinal, column index)` taken from the footer — that is
     `Module.aad` itself (call sites listed at `Module.ords`); the writer side agrees. -/
-theorem static_ordinals_agree (cfg : WCfg) (wops : List WOp) (hnr : ∀ o ∈ wops, o.isReset = false)
+theorem static_ordinals_agree (cfg : WCfg) (wops : List WOp)
     (pfx fu : Bytes) (ew : Ev) (hw : ew ∈ wclose cfg (wrun cfg wops)) :
     ew.slot.aad pfx fu = ew.used.aad pfx fu := by
-  rw [writer_ordinals_agree cfg wops hnr ew hw]; rfl
+  rw [writer_ordinals_agree cfg wops ew hw]; rfl
 
 /-! ## With the ideal-AEAD hypothesis -/
 
@@ -141,21 +147,21 @@ section aead
 variable {K N C : Type} (A : AEAD K N C)
 
 /-- A module sealed by the writer in some slot is opened by a reader positioned on that slot,
-    with the same key, and yields the plaintext (every write history without Reset, every
+    with the same key, and yields the plaintext (every write history, every
     read/seek history). -/
-theorem roundtrip (hI : Ideal A) (cfg : WCfg) (wops : List WOp) (hnr : ∀ o ∈ wops, o.isReset = false)
+theorem roundtrip (hI : Ideal A) (cfg : WCfg) (wops : List WOp)
     (c : Chunk) (rops : List ROp) (pfx fu : Bytes)
     (ew : Ev) (hw : ew ∈ wclose cfg (wrun cfg wops)) (er : Ev) (hr : er ∈ (rrun c rops).log)
     (hslot : ew.slot = er.slot) (k : K) (n : N) (p : Bytes) :
     openModule A k (er.used.aad pfx fu) (sealModule A k n (ew.used.aad pfx fu) p) = some p := by
-  rw [ordinals_agree cfg wops hnr c rops pfx fu ew hw er hr hslot]
+  rw [ordinals_agree cfg wops c rops pfx fu ew hw er hr hslot]
   exact hI.open_seal k n _ p
 
 /-- the same for the modules opened from footer metadata -/
-theorem roundtrip_static (hI : Ideal A) (cfg : WCfg) (wops : List WOp) (hnr : ∀ o ∈ wops, o.isReset = false)
+theorem roundtrip_static (hI : Ideal A) (cfg : WCfg) (wops : List WOp)
     (pfx fu : Bytes) (ew : Ev) (hw : ew ∈ wclose cfg (wrun cfg wops)) (k : K) (n : N) (p : Bytes) :
     openModule A k (ew.slot.aad pfx fu) (sealModule A k n (ew.used.aad pfx fu) p) = some p := by
-  rw [static_ordinals_agree cfg wops hnr pfx fu ew hw]
+  rw [static_ordinals_agree cfg wops pfx fu ew hw]
   exact hI.open_seal k n _ p
 
 /-- A module sealed for slot `m'` and placed in a different slot `m` of the same file (another
